@@ -16,7 +16,8 @@ RULE = ("truth-table differential over fresh solver instances: for operands A, B
         "of the placement grid, admit(P + F(A,B), c) must equal F(admit(P + A, c), admit(P + B, c)) for F in "
         "{Not, And, Or, Xor, Implies(cond,.), IfThenElse(cond,.,.)}; every execution is one solve of the real library. "
         "Optional constraints: every subset of applied flags is pinned together with c; sat iff the force-apply count "
-        "admits the subset and every applied operand holds on c. ConstraintFromExpression: admit vs the mini-AST value. "
+        "admits the subset and every applied operand holds on c. An operand declared optional inside a connective: applied flag "
+        "pinned or forced, same truth table (unapplied+false operand is band). ConstraintFromExpression: admit vs the mini-AST value. "
         "Every returned schedule is also judged by the refsem C10 clauses. distinct = (formula, candidate); the evidence "
         "counts the operand valuation patterns TT/TF/FT/FF reached.")
 ASSUMPTIONS = ["operands with auxiliary unknowns under negation are judged only in the thorough tier and only through refsem"]
@@ -281,6 +282,66 @@ def run_optional(case):
     return acc.result()
 
 
+def _strip_optional(n):
+    if isinstance(n, list):
+        return [_strip_optional(x) for x in n]
+    if isinstance(n, dict):
+        return {k: _strip_optional(v) for k, v in n.items() if k not in ("optional", "id")}
+    return n
+
+
+def run_optional_operand(case):
+    """a connective (not itself optional) one of whose operands is a constraint declared optional=True: with the
+    operand's applied flag true (pinned, or forced by ForceApplyNOptionalConstraints) the combination constrains the
+    schedule by the boolean combination of the operands' meanings and the operand is not enforced on its own.  With
+    the flag false the statement is silent on whether the operand counts as M or as (applied -> M): judged only where
+    both readings agree (M holds)."""
+    acc = common.Acc(PREFIXES)
+    spec, f = case["spec"], case["formula"]
+    rng = random.Random(case.get("rng", 0))
+    cs = [c for c in cd.enumerate_candidates(spec, wide=False, limit=5000, rng=rng)
+          if cd.classify(spec, c)[0] == "valid"]
+    if len(cs) > case["limit"]:
+        cs = rng.sample(cs, case["limit"])
+    plain_f = _strip_optional(f)
+    leaf = _strip_optional(case["operand"])
+    for c in cs:
+        tt = TT(acc, spec, c)
+        want, M = tt.value(plain_f), tt.value(leaf)
+        if want is None or M is None:
+            acc.inconclusive.append("leaf-unknown")
+            continue
+        runs = [("pinned-applied", [f], [["applied", "o0"]], want), ("pinned-unapplied", [f], [["not", ["applied", "o0"]]], want if M else None),
+                ("forced", [f, {"id": "fa", "kind": "ForceApplyNOptionalConstraints", "constraints": ["o0"], "n": 1,
+                                "mode": case.get("mode", "exact")}], [], want)]
+        for tag, cons, exprs, expected in runs:
+            s2 = dict(spec, constraints=spec["constraints"] + copy.deepcopy(cons))
+            pins = pr.candidate_pins(s2, c) + [{"pin": "expr", "expr": e} for e in exprs]
+            res = pr.run_solve(s2, {"pins": pins})
+            acc.executions += 1
+            got = {"sat": True, "unsat": False}.get(res["outcome"])
+            if got is None:
+                if res["outcome"] in ("build_error", "exception"):
+                    acc.violation("C10.optional_operand.exception", "exception", {"exc": res["exc"].get("type"), "top": f["kind"]},
+                                  {"exc": res["exc"]})
+                else:
+                    acc.inconclusive.append(res["outcome"])
+                continue
+            if expected is None:
+                acc.count(acc.clauses, "C10.optional_operand.unapplied_false_operand:B")
+                continue
+            acc.sigs.add(common.h([common.h(f), cd.cand_key(c), tag]))
+            acc.count(acc.clauses, f"C10.optional_operand.{tag}:{'T' if got == expected else 'F'}")
+            if got != expected:
+                acc.violation("C10.optional_operand", "laxer" if got else "stricter", {"top": f["kind"], "how": tag},
+                              {"cand": c, "formula": f, "operand_holds": M, "library": got, "expected": expected})
+        if acc.sample is None:
+            acc.sample = {"formula": f, "candidate": c, "operand_holds": M, "combination_holds": want}
+    if not cs:
+        acc.empty_ok = True
+    return acc.result()
+
+
 def run_expr(case):
     """ConstraintFromExpression: admit vs the value of the mini-AST"""
     acc = common.Acc(PREFIXES)
@@ -386,6 +447,21 @@ def generate(tier, seed):
                           "spec": dict(spec, constraints=[copy.deepcopy(fo), other, {
                               "id": "fa", "kind": "ForceApplyNOptionalConstraints", "constraints": ["o0", "o1"], "n": n,
                               "mode": mode}]), "limit": 5 if tier == "quick" else 60, "rng": seed + fi})
+    # an operand declared optional=True inside a connective that is not optional itself
+    plain = [x for x in leaf_pool(False) if x["kind"] != "expr"]
+    for fi in range(3 if tier == "quick" else len(plain)):
+        A, B = copy.deepcopy(plain[fi % len(plain)]), copy.deepcopy(plain[(fi + 1) % len(plain)])
+        Ao = dict(copy.deepcopy(A), id="o0", optional=True)
+        forms = [{"kind": "Not", "arg": Ao}, {"kind": "Or", "args": [Ao, B]}, {"kind": "Or", "args": [B, Ao]},
+                 {"kind": "And", "args": [Ao, B]}, {"kind": "Xor", "a": Ao, "b": B},
+                 {"kind": "Implies", "cond": CONDS[fi % 2], "args": [Ao]},
+                 {"kind": "IfThenElse", "cond": CONDS[(fi + 1) % 2], "then": [Ao], "else": [B]},
+                 {"kind": "IfThenElse", "cond": CONDS[fi % 2], "then": [B], "else": [Ao]}]
+        for gi, f in enumerate(forms):
+            f = dict(f, id=f"top{gi}")
+            cases.append({"cid": f"optional-operand-{f['kind']}-{fi}-{gi}", "family": "optional-operand",
+                          "kind": "optional_operand", "spec": base_spec(False), "formula": f, "operand": Ao,
+                          "mode": ("exact", "min")[gi % 2], "limit": 6 if tier == "quick" else 60, "rng": seed + fi})
     # shared operands: the same constraint object under two combinations
     spec = base_spec(False)
     plain = [x for x in leaf_pool(False) if x["kind"] != "expr"]
@@ -442,6 +518,8 @@ def run_case(case):
         return run_tt(case)
     if k == "optional":
         return run_optional(case)
+    if k == "optional_operand":
+        return run_optional_operand(case)
     if k == "expr":
         return run_expr(case)
     if k == "shared":
